@@ -233,16 +233,23 @@ CLAIMS['C13'] = dict(
          "assumption (exercised by the bounded stage); np.array(dtype=int) exact on integral columns; A2.",
     technique='contract-based deductive verification of the writer records and of the reader decoding statements with a record-level round-trip lemma (z3) + bounded round trip with an independent reader')
 CLAIMS['C15'] = dict(
-    category='other',
-    text="Reader glue of load_p1_cif proved against an abstract block: a file is rejected iff it carries a space-group name other than P1 / 'P 1' "
-         "(or no coordinates), Cartesian tags take precedence over fractional ones, and fractional coordinates are reduced modulo 1 before the "
-         "multiplication with the cell (real arithmetic, arbitrary atom and cell) while Cartesian ones are left alone. Writer loops, label "
-         "generation, PyCifRW and the round trip are only checked with a stated bound: write -> read -> compare -> rewrite on 63 generated "
-         "structures (3 cells, coordinates inside / outside / on the boundary, explicit types sharing an element, all term kinds, extra columns), "
+    category='proof',
+    text="Proved on the real AST. Reader glue of load_p1_cif against an abstract block: a file is rejected iff it carries a space-group name other "
+         "than P1 / 'P 1' (or no coordinates), Cartesian tags take precedence over fractional ones, and fractional coordinates are reduced modulo 1 "
+         "before the multiplication with the cell (real arithmetic, arbitrary atom and cell). Writer: save_p1_cif executed on a structure of "
+         "arbitrary size (every combination of present / absent term kinds, fractional and Cartesian output) with recorders in place of the "
+         "PyCifRW objects: the block declares P 1 and the cell lengths / angles (4 decimals), one atom loop with label, element of atom k, its "
+         "coordinates to 4 decimals (fractional = positions.dot(inv(cell)) row-wise) and charge in atom order, a bond / angle / torsion loop "
+         "exactly when such terms exist, row k naming the labels of the atoms of term k, torsions = dihedrals followed by impropers. Reader: the "
+         "label -> index decoding statements of load_p1_cif, run on the columns the writer was proved to add, return bonds, angles and torsions "
+         "between the same atoms in order (record-level round trip). Label distinctness, extra columns, uncertainties, PyCifRW and the "
+         "text-level rewrite are only checked with a stated bound: write -> read -> compare -> rewrite on ~70 generated structures (3 cells, "
+         "coordinates inside / outside / on the boundary, explicit types sharing an element, all term kinds and single kinds, extra columns), "
          "comparison with ase.io.read, uncertainties in parentheses, 26 space-group names.",
-    note="Level 'other'. Known findings: impropers + extra torsion columns cannot be written (F17); '-0.0000' text after a re-read (cosmetic). The "
-         "writer raised on every call before the fix 20ec69a.",
-    technique='contract-based deductive verification of the reader decisions (z3) + bounded CIF round trips with an independent reader')
+    note="Assumed: PyCifRW hands back the loops / columns that were added (bridge), atom labels (element + running count) are pairwise distinct, "
+         "list.index = first position, A2. Known findings: impropers + extra torsion columns cannot be written (F17); '-0.0000' text after a re-read "
+         "(cosmetic). The writer raised on every call before the fix 20ec69a.",
+    technique='contract-based deductive verification of the reader decisions, the writer content and the label decoding (recorders for PyCifRW, z3) + bounded CIF round trips with an independent reader')
 CLAIMS['C20'] = dict(
     category='proof',
     text="mofun_cli's body is executed symbolically in six option scenarios with every callee uninterpreted and the structure's state a version "
